@@ -718,12 +718,12 @@ Section Setitem.
     skipn (length os) l' = skipn (length os) l /\ length l' = length l.
   Proof.
     revert os l'. induction l as [|s l IH]; intros os l' H.
-    - cbn in H. injection H as <-. cbn. rewrite firstn_nil, !skipn_nil. repeat split; constructor.
+    - cbn in H. injection H as <-. cbn. rewrite firstn_nil, !skipn_nil. repeat split; try constructor.
     - destruct os as [|o os]; cbn in H.
-      + injection H as <-. cbn. repeat split; constructor.
+      + injection H as <-. cbn. repeat split; try constructor.
       + destruct (assign_coef ix s o) as [s'|e0] eqn:E; [|discriminate].
         destruct (set_loop ix l os) as [r e1] eqn:E'. injection H as <- ->.
-        destruct (IH _ _ E') as (H1 & H2 & H3). cbn. repeat split; auto. constructor; assumption.
+        destruct (IH _ _ E') as (H1 & H2 & H3). cbn. repeat split; auto; constructor; assumption.
   Qed.
 
   (* an exception leaves the entries before the failing one assigned, the failing one and the rest untouched *)
@@ -791,10 +791,13 @@ Section Setitem.
 
   (* ---- writing the loop's result back into `_values` ---- *)
   Lemma arrays_of_map (rows : list (list R)) : arrays_of (map CArr rows) = rows.
-  Proof. induction rows; cbn; congruence. Qed.
+  Proof.
+    induction rows as [|r rows IH]; [reflexivity|].
+    change (arrays_of (map CArr (r :: rows))) with (r :: arrays_of (map CArr rows)). rewrite IH. reflexivity.
+  Qed.
 
   Lemma restore_entries st : restore st (entries st) = st.
-  Proof. destruct st; cbn; auto. rewrite arrays_of_map. reflexivity. Qed.
+  Proof. destruct st as [l|v|n rows]; [reflexivity | reflexivity|]. unfold restore, entries. rewrite arrays_of_map. reflexivity. Qed.
 
   (* the kind of storage, the numbers of a 1-D ndarray and the length of the trailing axis never change *)
   Definition same_kind st st' : Prop :=
@@ -821,7 +824,7 @@ Section Setitem.
         - match goal with Hf : frame_coef _ (CArr _) _ |- _ => cbn in Hf; destruct Hf as (a' & -> & Hl & _) end.
           match goal with Hf : Forall2 _ (map CArr rows) _ |- _ => destruct (IH _ Hf) as (rows' & -> & Hr) end.
           exists (a' :: rows'). split; [reflexivity | constructor; assumption]. }
-      rewrite arrays_of_map. repeat split; auto. intro Hwf.
+      rewrite arrays_of_map. repeat split; auto. intro Hwf. clear H.
       induction Hlen as [|r r' rows rows' Hr _ IH]; [constructor|]. inversion Hwf; subst. constructor; [lia | apply IH; assumption].
   Qed.
 
@@ -876,7 +879,7 @@ Section Setitem.
     apply assign_arr_spec in E. destruct E as (ad & Had & Hc).
     exists a, a', ad. repeat split; auto.
     pose proof (addr_of_wf _ _ _ Had) as Hwf.
-    unfold get_arr. rewrite Hlen, Had. cbn. destruct ad as [p|ps]; cbn in *.
+    unfold get_coef, get_arr. rewrite Hlen, Had. cbn. destruct ad as [p|ps]; cbn in *.
     - destruct Hc as (x & Hx & ->). rewrite nth_error_set_nth, Nat.eqb_refl.
       apply Nat.ltb_lt in Hwf. rewrite Hwf. cbn. destruct Hx as [-> | ->]; reflexivity.
     - destruct Hc as (vs & Hv & ->). destruct Hwf as [Hin Hnd]. rewrite Hv.
@@ -947,7 +950,7 @@ Section Setitem.
       + inversion E; subst. eapply IH; eassumption.
     - intro H. revert os Hlen H. induction l as [|s l IH]; intros [|o os] Hlen H; try discriminate; cbn.
       + eauto.
-      + inversion H as [|? ? Hso H']; subst. apply (proj2 (assign_coef_Ok_iff _ _ _)) in Hso. destruct Hso as (s' & ->).
+      + inversion H as [|? ? Hso H']; subst. apply (proj2 (assign_coef_Ok_iff _ _ _)) in Hso. destruct Hso as (s' & Hs'). cbn in Hs'. rewrite Hs'.
         cbn in Hlen. destruct (IH os ltac:(lia) H') as (st' & E).
         destruct (set_loop _ l os) as [r e1]. injection E as _ ->. eauto.
   Qed.
@@ -975,7 +978,283 @@ Section Setitem.
         - subst y. destruct Hw as [Hin _]. exists (pick ps a). split.
           + cbn. unfold bc_row. rewrite (pick_length _ _ Hin), Nat.eqb_refl. reflexivity.
           + symmetry. apply write_pick. assumption. }
-      rewrite (IH _ Harr' ltac:(assumption)). reflexivity. }
+      rewrite IH by assumption. reflexivity. }
     rewrite restore_entries. reflexivity.
   Qed.
+
+  (* ---- the two readings of the round trip ---- *)
+  Lemma Forall2_combine_map {A B C} (g : B -> C) (E : list A) (V : list B) (Ys : list C) :
+    length V = length E -> Forall2 (fun so y => y = g (snd so)) (combine E V) Ys -> Ys = map g V.
+  Proof.
+    revert V Ys. induction E as [|e E IH]; intros [|v V] Ys Hlen H; try discriminate; cbn in *.
+    - inversion H. reflexivity.
+    - inversion H; subst. f_equal. apply IH; auto.
+  Qed.
+
+  Lemma Forall2_impl_Forall {A B} (P P' : A -> B -> Prop) (Q : A -> Prop) l l' :
+    Forall2 P l l' -> Forall Q l -> (forall u v, P u v -> Q u -> P' u v) -> Forall2 P' l l'.
+  Proof.
+    intros H HQ Himp. induction H; constructor; inversion HQ; subst; auto.
+  Qed.
+
+  (* V's coefficients have the addressed shape (a number for an integer subscript, an array of the addressed
+     length for a slice): X[idx] afterwards holds exactly V's coefficients *)
+  Definition np_of o : coef R := match o with CNum x => CNp x | _ => o end.
+  Definition aligned (ad : addr) o : Prop :=
+    match ad with
+    | AOne _ => exists x, is_scalar o x
+    | AMany ps => exists l, o = CArr l /\ length l = length ps
+    end.
+
+  Lemma bcast_coef_of_aligned ad o : aligned ad o -> bcast_coef ad o = np_of o.
+  Proof.
+    destruct ad as [p|ps].
+    - cbn. intros (x & [-> | ->]); reflexivity.
+    - intros (l & -> & H). rewrite bcast_coef_aligned by exact H. reflexivity.
+  Qed.
+
+  Corollary getitem_setitem_aligned X item ks vst st' Y :
+    wf_store (s_vals X) -> length (entries vst) = length (entries (s_vals X)) ->
+    Forall (fun so => forall ad, addr_of (coef_len (fst so)) (norm_item item) = Ok ad -> aligned ad (snd so))
+           (combine (entries (s_vals X)) (entries vst)) ->
+    mv_setitem X item (FromMv ks vst) = (st', None) ->
+    mv_getitem (mkSmv (s_keys X) st') item = Ok Y ->
+    s_keys Y = s_keys X /\ entries (s_vals Y) = map np_of (entries vst).
+  Proof.
+    intros Hwf Hlen Hal Hset Hget.
+    destruct (getitem_setitem _ _ _ _ _ _ Hwf Hlen Hset Hget) as (Hk & H). split; [exact Hk|].
+    apply Forall2_combine_map with (E := entries (s_vals X)); [exact Hlen|].
+    eapply Forall2_impl_Forall; [exact H | exact Hal|].
+    intros so y (ad & Had & ->) Ha. apply bcast_coef_of_aligned. apply Ha. exact Had.
+  Qed.
+
+  (* V's coefficients are numbers: every blade receives ITS OWN number on every addressed entry -- for list
+     storage and for ndarray storage alike (the finding fixed in kingdon 76adadb: the 2-D ndarray used to be
+     assigned in one numpy statement, which broadcast V's numbers along the BLADE axis) *)
+  Corollary setitem_scalar_broadcast X item ks vst st' Y :
+    wf_store (s_vals X) -> length (entries vst) = length (entries (s_vals X)) ->
+    Forall (fun o => exists x, is_scalar o x) (entries vst) ->
+    mv_setitem X item (FromMv ks vst) = (st', None) ->
+    mv_getitem (mkSmv (s_keys X) st') item = Ok Y ->
+    Forall2 (fun so y => exists ad x, addr_of (coef_len (fst so)) (norm_item item) = Ok ad /\ is_scalar (snd so) x /\
+                         y = match ad with AOne _ => CNp x | AMany ps => CArr (repeat x (length ps)) end)
+            (combine (entries (s_vals X)) (entries vst)) (entries (s_vals Y)).
+  Proof.
+    intros Hwf Hlen Hsc Hset Hget.
+    destruct (getitem_setitem _ _ _ _ _ _ Hwf Hlen Hset Hget) as (_ & H).
+    eapply Forall2_impl_Forall with (Q := fun so => exists x, is_scalar (snd so) x); [exact H| |].
+    - apply Forall_forall. intros [s o] Hin. apply in_combine_r in Hin. rewrite Forall_forall in Hsc. exact (Hsc o Hin).
+    - intros so y (ad & Had & ->) (x & Hx). exists ad, x. repeat split; auto.
+      destruct ad; [apply bcast_coef_scalar_one | apply bcast_coef_scalar_many]; exact Hx.
+  Qed.
 End Setitem.
+
+(* ================================================================================================
+   E. operands of a binary operator *)
+Section Operands.
+  Context {R : Type}.
+  Variable self_alg : nat.
+  Variable f : mv R -> mv R -> res (mv R).
+
+  Lemma operand_ind' (P : operand R -> Prop) :
+    (forall c, P (ONum c)) -> (forall a m, P (OMv a m)) ->
+    (forall l, Forall P l -> P (OSeq l)) -> (forall l, Forall P l -> P (OTup l)) ->
+    (forall o, P o -> P (OCall o)) -> forall o, P o.
+  Proof.
+    intros Hn Hm Hs Ht Hc.
+    refine (fix go (o : operand R) : P o :=
+              match o with
+              | ONum c => Hn c
+              | OMv a m => Hm a m
+              | OSeq l => Hs l ((fix gl (l : list (operand R)) : Forall P l :=
+                                   match l with [] => Forall_nil _ | x :: r => Forall_cons _ (go x) (gl r) end) l)
+              | OTup l => Ht l ((fix gl (l : list (operand R)) : Forall P l :=
+                                   match l with [] => Forall_nil _ | x :: r => Forall_cons _ (go x) (gl r) end) l)
+              | OCall o' => Hc o' (go o')
+              end).
+  Qed.
+
+  (* ---- the specification: what `left op right` must be, without fuel ---- *)
+  (* the value of an operand: callables replaced by what they return, numbers by the scalar multivector of the
+     operator's algebra *)
+  Inductive tree := TLeaf (a : nat) (m : mv R) | TNode (tup : bool) (l : list tree).
+  Fixpoint denote (o : operand R) : tree :=
+    match o with
+    | ONum c => TLeaf self_alg [(0%Z, c)]
+    | OMv a m => TLeaf a m
+    | OSeq l => TNode false (map denote l)
+    | OTup l => TNode true (map denote l)
+    | OCall o' => denote o'
+    end.
+  Definition mk (tup : bool) (l : list (result R)) : result R := if tup then RTup l else RSeq l.
+  (* two multivectors: algebra check, then the operator on (left, right) IN THIS ORDER *)
+  Definition apply_leaf (a1 : nat) (m1 : mv R) (a2 : nat) (m2 : mv R) : res (result R) :=
+    if Nat.eqb a1 a2 then m <- f m1 m2 ;; Ok (RMv m) else Err EAlgebra.
+  (* the right operand is a multivector: a sequence on the left is mapped, element by element, in order *)
+  Fixpoint evalL (l : tree) (b : nat) (mb : mv R) : res (result R) :=
+    match l with
+    | TLeaf a m => apply_leaf a m b mb
+    | TNode k xs => s <- mapM (fun x => evalL x b mb) xs ;; Ok (mk k s)
+    end.
+  (* a sequence on the right is mapped first (the outer shape of the result is the shape of the right operand) *)
+  Fixpoint eval_tree (l r : tree) {struct r} : res (result R) :=
+    match r with
+    | TLeaf b mb => evalL l b mb
+    | TNode k xs => s <- mapM (fun x => eval_tree l x) xs ;; Ok (mk k s)
+    end.
+
+  Lemma osize_pos (o : operand R) : 0 < osize o.
+  Proof. destruct o; cbn; lia. Qed.
+
+  Lemma osize_in_sum (x : operand R) (l : list (operand R)) :
+    In x l -> osize x <= (fix go (l : list (operand R)) := match l with [] => 0 | x :: r => osize x + go r end) l.
+  Proof.
+    induction l as [|y l IH]; [intros []|]. intros [<-|H]; [lia|]. specialize (IH H). lia.
+  Qed.
+  Lemma osize_in_seq (x : operand R) l : In x l -> osize x < osize (OSeq l).
+  Proof. intro H. apply osize_in_sum in H. cbn. lia. Qed.
+  Lemma osize_in_tup (x : operand R) l : In x l -> osize x < osize (OTup l).
+  Proof. intro H. apply osize_in_sum in H. cbn. lia. Qed.
+
+  (* MAIN: with enough fuel, _call_binary computes the specification, for ALL operands *)
+  Theorem call_binary_spec n l r :
+    osize l + osize r < n -> call_binary self_alg f n l r = eval_tree (denote l) (denote r).
+  Proof.
+    revert l r. induction n as [|n IH]; intros l r Hn; [lia|].
+    assert (Hr : forall k xs, (forall x, In x xs -> osize l + osize x < n) ->
+                  (s <- mapM (fun x => call_binary self_alg f n l x) xs ;; Ok (mk k s))
+                  = eval_tree (denote l) (TNode k (map denote xs))).
+    { intros k xs Hxs. cbn [eval_tree]. rewrite mapM_map.
+      rewrite (mapM_ext_in _ (fun x => eval_tree (denote l) (denote x))); [reflexivity|].
+      intros x Hx. apply IH, Hxs, Hx. }
+    assert (Hl : forall k xs b mb, denote r = TLeaf b mb -> (forall x, In x xs -> osize x + osize r < n) ->
+                  (s <- mapM (fun x => call_binary self_alg f n x r) xs ;; Ok (mk k s))
+                  = eval_tree (TNode k (map denote xs)) (denote r)).
+    { intros k xs b mb Hb Hxs. rewrite Hb. cbn [eval_tree evalL]. rewrite mapM_map.
+      rewrite (mapM_ext_in _ (fun x => evalL (denote x) b mb)); [reflexivity|].
+      intros x Hx. rewrite IH by (apply Hxs, Hx). rewrite Hb. reflexivity. }
+    assert (HrS : forall ys, osize l + osize (OSeq ys) < S n ->
+                  (s <- mapM (fun x => call_binary self_alg f n l x) ys ;; Ok (RSeq s)) = eval_tree (denote l) (denote (OSeq ys))).
+    { intros ys Hs. apply (Hr false). intros x Hx. apply osize_in_seq in Hx. lia. }
+    assert (HrT : forall ys, osize l + osize (OTup ys) < S n ->
+                  (s <- mapM (fun x => call_binary self_alg f n l x) ys ;; Ok (RTup s)) = eval_tree (denote l) (denote (OTup ys))).
+    { intros ys Hs. apply (Hr true). intros x Hx. apply osize_in_tup in Hx. lia. }
+    assert (HlS : forall xs b mb, denote r = TLeaf b mb -> osize (OSeq xs) + osize r < S n ->
+                  (s <- mapM (fun x => call_binary self_alg f n x r) xs ;; Ok (RSeq s)) = eval_tree (denote (OSeq xs)) (denote r)).
+    { intros xs b mb Hb Hs. apply (Hl false xs b mb Hb). intros x Hx. apply osize_in_seq in Hx. lia. }
+    assert (HlT : forall xs b mb, denote r = TLeaf b mb -> osize (OTup xs) + osize r < S n ->
+                  (s <- mapM (fun x => call_binary self_alg f n x r) xs ;; Ok (RTup s)) = eval_tree (denote (OTup xs)) (denote r)).
+    { intros xs b mb Hb Hs. apply (Hl true xs b mb Hb). intros x Hx. apply osize_in_tup in Hx. lia. }
+    assert (HcL : forall l', l = OCall l' -> call_binary self_alg f n l' r = eval_tree (denote l) (denote r)).
+    { intros l' ->. cbn [denote]. apply IH. cbn in Hn. lia. }
+    assert (HcR : forall r', r = OCall r' -> call_binary self_alg f n l r' = eval_tree (denote l) (denote r)).
+    { intros r' ->. cbn [denote]. apply IH. cbn in Hn. lia. }
+    clear Hr Hl IH.
+    destruct l as [c|a m|xs|xs|l']; [| | | |exact (HcL l' eq_refl)];
+      (destruct r as [c'|a' m'|ys|ys|r']; [| |exact (HrS ys Hn)|exact (HrT ys Hn)|exact (HcR r' eq_refl)]);
+      try reflexivity;
+      first [ exact (HlS xs _ _ eq_refl Hn) | exact (HlT xs _ _ eq_refl Hn) ].
+  Qed.
+
+  Corollary call_binary_total_spec l r :
+    call_binary_total self_alg f l r = eval_tree (denote l) (denote r).
+  Proof. unfold call_binary_total. apply call_binary_spec. lia. Qed.
+
+  (* fuel is irrelevant above the bound: the while loops and the recursion terminate, EFuel does not occur *)
+  Corollary call_binary_fuel n l r :
+    osize l + osize r < n -> call_binary self_alg f n l r = call_binary_total self_alg f l r.
+  Proof. intro H. rewrite call_binary_total_spec. apply call_binary_spec, H. Qed.
+
+  Local Notation ev := (call_binary_total self_alg f).
+
+  (* a plain number on either side behaves as the scalar multivector [(0, c)] of the operator's algebra *)
+  Theorem scalar_wrap_left c r : ev (ONum c) r = ev (OMv self_alg [(0%Z, c)]) r.
+  Proof. rewrite !call_binary_total_spec. reflexivity. Qed.
+  Theorem scalar_wrap_right l c : ev l (ONum c) = ev l (OMv self_alg [(0%Z, c)]).
+  Proof. rewrite !call_binary_total_spec. reflexivity. Qed.
+
+  (* two multivectors: the operator is applied to (left, right), in this order *)
+  Theorem leaves_in_order a x y : ev (OMv a x) (OMv a y) = (m <- f x y ;; Ok (RMv m)).
+  Proof. rewrite call_binary_total_spec. cbn. unfold apply_leaf. rewrite Nat.eqb_refl. reflexivity. Qed.
+  Theorem algebra_check a b x y : a <> b -> ev (OMv a x) (OMv b y) = Err EAlgebra.
+  Proof.
+    intro H. rewrite call_binary_total_spec. cbn. unfold apply_leaf.
+    apply Nat.eqb_neq in H. rewrite H. reflexivity.
+  Qed.
+
+  (* a list / tuple on the right: the list / tuple of `left op element`, in order, whatever the left operand is *)
+  Theorem seq_maps_right l xs : ev l (OSeq xs) = (s <- mapM (fun x => ev l x) xs ;; Ok (RSeq s)).
+  Proof.
+    rewrite call_binary_total_spec. cbn [denote eval_tree]. rewrite mapM_map.
+    rewrite (mapM_ext_in _ (fun x => ev l x)); [reflexivity|]. intros x _. symmetry. apply call_binary_total_spec.
+  Qed.
+  Theorem tup_maps_right l xs : ev l (OTup xs) = (s <- mapM (fun x => ev l x) xs ;; Ok (RTup s)).
+  Proof.
+    rewrite call_binary_total_spec. cbn [denote eval_tree]. rewrite mapM_map.
+    rewrite (mapM_ext_in _ (fun x => ev l x)); [reflexivity|]. intros x _. symmetry. apply call_binary_total_spec.
+  Qed.
+
+  (* a list / tuple on the left of something whose value is a multivector (a multivector, a number, or a callable
+     returning one): the list / tuple of `element op right`, in order, the right operand staying on the right *)
+  Definition atomic (o : operand R) : Prop := exists b mb, denote o = TLeaf b mb.
+  Theorem seq_maps_left xs r : atomic r -> ev (OSeq xs) r = (s <- mapM (fun x => ev x r) xs ;; Ok (RSeq s)).
+  Proof.
+    intros (b & mb & Hb). rewrite call_binary_total_spec. cbn [denote]. rewrite Hb. cbn [eval_tree evalL]. rewrite mapM_map.
+    rewrite (mapM_ext_in _ (fun x => ev x r)); [reflexivity|].
+    intros x _. rewrite call_binary_total_spec, Hb. reflexivity.
+  Qed.
+  Theorem tup_maps_left xs r : atomic r -> ev (OTup xs) r = (s <- mapM (fun x => ev x r) xs ;; Ok (RTup s)).
+  Proof.
+    intros (b & mb & Hb). rewrite call_binary_total_spec. cbn [denote]. rewrite Hb. cbn [eval_tree evalL]. rewrite mapM_map.
+    rewrite (mapM_ext_in _ (fun x => ev x r)); [reflexivity|].
+    intros x _. rewrite call_binary_total_spec, Hb. reflexivity.
+  Qed.
+
+  (* [x, y] op z = [x op z, y op z]   and   z op [x, y] = [z op x, z op y] *)
+  Corollary seq_left_two a x y z :
+    ev (OSeq [OMv a x; OMv a y]) (OMv a z) = (u <- f x z ;; v <- f y z ;; Ok (RSeq [RMv u; RMv v])).
+  Proof.
+    rewrite seq_maps_left by (exists a, z; reflexivity). cbn [mapM]. rewrite !leaves_in_order.
+    destruct (f x z); cbn; [|reflexivity]. destruct (f y z); reflexivity.
+  Qed.
+  Corollary seq_right_two a x y z :
+    ev (OMv a z) (OSeq [OMv a x; OMv a y]) = (u <- f z x ;; v <- f z y ;; Ok (RSeq [RMv u; RMv v])).
+  Proof.
+    rewrite seq_maps_right. cbn [mapM]. rewrite !leaves_in_order.
+    destruct (f z x); cbn; [|reflexivity]. destruct (f z y); reflexivity.
+  Qed.
+
+  (* zero-argument callables are called until something that is not callable appears, on either side, any depth *)
+  Fixpoint ncall (k : nat) (o : operand R) : operand R := match k with O => o | S k' => OCall (ncall k' o) end.
+  Lemma denote_ncall k o : denote (ncall k o) = denote o.
+  Proof. induction k; cbn; auto. Qed.
+  Theorem callable_unwrap j k l r : ev (ncall j l) (ncall k r) = ev l r.
+  Proof. rewrite !call_binary_total_spec, !denote_ncall. reflexivity. Qed.
+  Corollary callable_unwrap_left l r : ev (OCall l) r = ev l r.
+  Proof. exact (callable_unwrap 1 0 l r). Qed.
+  Corollary callable_unwrap_right l r : ev l (OCall r) = ev l r.
+  Proof. exact (callable_unwrap 0 1 l r). Qed.
+
+  (* composition: operands with the same value give the same result -- a list of callables returning numbers
+     is a list of scalar multivectors, etc. *)
+  Theorem same_value_same_result l l' r r' : denote l = denote l' -> denote r = denote r' -> ev l r = ev l' r'.
+  Proof. intros Hl Hr. rewrite !call_binary_total_spec, Hl, Hr. reflexivity. Qed.
+
+  (* the exception of a sequence is the exception of its first failing element *)
+  Theorem seq_right_raises l xs e :
+    ev l (OSeq xs) = Err e <->
+    exists pre x post rs, xs = pre ++ x :: post /\ Forall2 (fun a b => ev l a = Ok b) pre rs /\ ev l x = Err e.
+  Proof.
+    rewrite seq_maps_right. destruct (mapM (fun x => ev l x) xs) as [s|e0] eqn:E; cbn.
+    - split; [discriminate|]. intro H. apply (proj2 (mapM_Err (fun x => ev l x) xs e)) in H. congruence.
+    - rewrite <- (mapM_Err (fun x => ev l x) xs e). rewrite E. split; congruence.
+  Qed.
+
+  (* the unary operators unwrap nothing; OperatorDict.__call__ with two operands is _call_binary *)
+  Lemma call_unary_mv g a m : call_unary (R := R) g (OMv a m) = (m' <- g m ;; Ok (RMv m')).
+  Proof. reflexivity. Qed.
+  Lemma call_unary_other g o : (forall a m, o <> OMv a m) -> call_unary (R := R) g o = Err EAttr.
+  Proof. destruct o; intro H; try reflexivity. exfalso. eapply H. reflexivity. Qed.
+  Lemma call_op_two n g l r : call_op self_alg f n g [l; r] = call_binary self_alg f n l r.
+  Proof. reflexivity. Qed.
+End Operands.
